@@ -809,6 +809,211 @@ mod proofs {
         }
     }
 
+    // C03/C02: select step on a reversed, stride-2 view inside a 9-cell parent with guards
+    #[kani::proof]
+    #[kani::unwind(6)]
+    fn select_step_strided_guard() {
+        let parent: [u8; 9] = kani::any();
+        let mut buf = parent;
+        {
+            let mut whole = ArrayViewMut1::from(&mut buf[..]);
+            let mut v = whole.slice_mut(s![1..8;-2]); // logical elements: parent[7], parent[5], parent[3], parent[1]
+            let i: usize = kani::any();
+            kani::assume(i < 4);
+            unsafe { ndarray_stats::verif_hooks::CUT_AFTER = 1; }
+            let r = v.get_from_sorted_mut(i);
+            let mut lt = 0usize; let mut le = 0usize;
+            for t in [1usize, 3, 5, 7] { if parent[t] < r { lt += 1; } if parent[t] <= r { le += 1; } }
+            assert!(lt <= i && i < le);
+        }
+        for t in [0usize, 2, 4, 6, 8] { assert!(buf[t] == parent[t]); }
+        let w: u8 = kani::any();
+        let mut c0 = 0usize; let mut c1 = 0usize;
+        for t in [1usize, 3, 5, 7] { if parent[t] == w { c0 += 1; } if buf[t] == w { c1 += 1; } }
+        assert!(c0 == c1);
+    }
+
+    // C17: deviation error table on 2-D shapes
+    #[kani::proof]
+    #[kani::unwind(6)]
+    fn errors_dev_2d() {
+        use ndarray_stats::errors::MultiInputError;
+        let sa: u8 = kani::any(); let sb: u8 = kani::any();
+        kani::assume(sa < 4 && sb < 4);
+        let shapes = [(2usize, 0usize), (1, 2), (2, 1), (2, 2)];
+        let (ra, ca) = shapes[sa as usize]; let (rb, cb) = shapes[sb as usize];
+        let va: [i8; 4] = kani::any(); let vb: [i8; 4] = kani::any();
+        let a = Array2::from_shape_vec((ra, ca), va[..ra * ca].to_vec()).unwrap();
+        let b = Array2::from_shape_vec((rb, cb), vb[..rb * cb].to_vec()).unwrap();
+        match a.l1_dist(&b) {
+            Err(MultiInputError::EmptyInput) => assert!(ra * ca == 0),
+            Err(MultiInputError::ShapeMismatch(m)) => {
+                assert!(ra * ca != 0 && (ra, ca) != (rb, cb));
+                assert!(m.first_shape.len() == 2 && m.first_shape[0] == ra && m.first_shape[1] == ca);
+                assert!(m.second_shape.len() == 2 && m.second_shape[0] == rb && m.second_shape[1] == cb);
+            }
+            Ok(_) => assert!(ra * ca != 0 && (ra, ca) == (rb, cb)),
+        }
+        kani::cover!(sa == 1 && sb == 2, "equal count different shape reachable");
+    }
+
+    // C06: f32 weighted_mean with small-integer payloads, mixed layouts: exact
+    #[kani::proof]
+    #[kani::unwind(6)]
+    fn wmean_f32_smallint() {
+        let xb: [u8; 4] = kani::any(); let wb: [u8; 4] = kani::any();
+        let x: Vec<f32> = xb.iter().map(|b| ((b & 7) as i32 - 3) as f32).collect();
+        let w: Vec<f32> = wb.iter().map(|b| ((b & 3) as i32 + 1) as f32).collect();
+        let a = Array2::from_shape_vec((2, 2), x.clone()).unwrap();
+        let wt = Array2::from_shape_vec((2, 2).f(), w.clone()).unwrap(); // wt[(i,j)] = w[j*2+i]
+        let r = a.weighted_sum(&wt).unwrap();
+        let mut s = 0i32;
+        for i in 0..2 { for j in 0..2 { s += (((xb[i * 2 + j] & 7) as i32) - 3) * (((wb[j * 2 + i] & 3) as i32) + 1); } }
+        assert!(r == s as f32);
+    }
+
+    // C12: build() with the iteration count pinned to k = 2
+    #[kani::proof]
+    #[kani::unwind(6)]
+    fn equispaced_build_k2() {
+        let wb: u8 = kani::any(); let mnb: i8 = kani::any(); let mxb: i8 = kani::any();
+        let w = (wb & 63) as i16 + 1; let mn = mnb as i16; let mx = mxb as i16;
+        kani::assume(mn < mx);
+        kani::assume(mn + w <= mx && mn + 2 * w > mx);
+        let (bins, nb) = ndarray_stats::verif_hooks::verif_equispaced(w, mn, mx).unwrap();
+        assert!(nb == 2 && bins.len() == 2);
+        assert!(bins.index(0) == (mn..mn + w) && bins.index(1) == (mn + w..mn + 2 * w));
+        assert!(bins.index_of(&mx) == Some(1) && bins.index_of(&mn) == Some(0));
+    }
+
+    // C18: bulk quantiles vs single, sharing indexes, Midpoint
+    #[kani::proof]
+    #[kani::unwind(6)]
+    fn bulk_vs_single_q() {
+        let vb: [u8; 3] = kani::any();
+        let vals = [(vb[0] & 15) as i16, (vb[1] & 15) as i16, (vb[2] & 15) as i16];
+        let mut a = Array1::from(vals.to_vec());
+        let mut b = a.clone(); let mut c = a.clone();
+        unsafe { ndarray_stats::verif_hooks::CUT_AFTER = 0; }
+        let qs = [n64(0.75), n64(0.25)];
+        let r = a.quantiles_mut(&aview1(&qs), &Midpoint).unwrap();
+        let r0 = b.quantile_mut(qs[0], &Midpoint).unwrap();
+        let r1 = c.quantile_mut(qs[1], &Midpoint).unwrap();
+        assert!(r.len() == 2 && r[0] == r0 && r[1] == r1);
+    }
+
+    #[kani::proof]
+    #[kani::unwind(3)]
+    fn equispaced_build_k1() {
+        let wb: u8 = kani::any(); let mnb: i8 = kani::any(); let mxb: i8 = kani::any();
+        let w = (wb & 63) as i16 + 1; let mn = mnb as i16; let mx = mxb as i16;
+        kani::assume(mn < mx);
+        kani::assume(mn + w > mx);
+        let (bins, nb) = ndarray_stats::verif_hooks::verif_equispaced(w, mn, mx).unwrap();
+        assert!(nb == 1 && bins.len() == 1);
+        assert!(bins.index(0) == (mn..mn + w));
+        assert!(bins.index_of(&mx) == Some(0) && bins.index_of(&mn) == Some(0));
+    }
+
+    /// Reference model of std's unstable sort: plain insertion sort.
+    fn model_sort<T, F: FnMut(&T, &T) -> bool>(v: &mut [T], is_less: &mut F) {
+        let mut i = 1;
+        while i < v.len() {
+            let mut j = i;
+            while j > 0 && is_less(&v[j], &v[j - 1]) { v.swap(j, j - 1); j -= 1; }
+            i += 1;
+        }
+    }
+
+    #[kani::proof]
+    #[kani::unwind(5)]
+    #[kani::stub(core::slice::sort::unstable::sort, model_sort)]
+    fn equispaced_build_k2c() {
+        let wb: u8 = kani::any(); let mnb: i8 = kani::any(); let mxb: i8 = kani::any();
+        let w = (wb & 63) as i16 + 1; let mn = mnb as i16; let mx = mxb as i16;
+        kani::assume(mn < mx);
+        kani::assume(mn + 2 * w > mx);
+        let (bins, nb) = ndarray_stats::verif_hooks::verif_equispaced(w, mn, mx).unwrap();
+        assert!(nb >= 1 && nb <= 2 && bins.len() == nb);
+        assert!(bins.index(0) == (mn..mn + w));
+        if nb == 2 { assert!(bins.index(1) == (mn + w..mn + 2 * w)); }
+        assert!(bins.index_of(&mx) == Some(nb - 1) && bins.index_of(&mn) == Some(0));
+        kani::cover!(nb == 2, "two bins reachable");
+    }
+
+    #[kani::proof]
+    #[kani::unwind(4)]
+    fn equispaced_build_k2b() {
+        let wb: u8 = kani::any(); let mnb: i8 = kani::any(); let mxb: i8 = kani::any();
+        let w = (wb & 63) as i16 + 1; let mn = mnb as i16; let mx = mxb as i16;
+        kani::assume(mn < mx);
+        kani::assume(mn + w <= mx && mn + 2 * w > mx);
+        let (bins, nb) = ndarray_stats::verif_hooks::verif_equispaced(w, mn, mx).unwrap();
+        assert!(nb == 2 && bins.len() == 2);
+        assert!(bins.index(0) == (mn..mn + w) && bins.index(1) == (mn + w..mn + 2 * w));
+        assert!(bins.index_of(&mx) == Some(1) && bins.index_of(&mn) == Some(0));
+    }
+
+    #[kani::proof]
+    #[kani::unwind(7)]
+    #[kani::stub(core::slice::sort::unstable::sort, model_sort)]
+    fn equispaced_build_i16_all() {
+        let wb: u8 = kani::any(); let mnb: i8 = kani::any(); let mxb: i8 = kani::any();
+        let w = (wb & 63) as i16 - 8; let mn = mnb as i16; let mx = mxb as i16;
+        kani::assume(w <= 0 || mn >= mx || mn + 4 * w > mx);
+        match ndarray_stats::verif_hooks::verif_equispaced(w, mn, mx) {
+            Err(_) => assert!(w <= 0 || mn >= mx),
+            Ok((bins, nb)) => {
+                assert!(w > 0 && mn < mx);
+                assert!(nb >= 1 && nb <= 4 && bins.len() == nb);
+                for k in 0..4 { if k < nb { assert!(bins.index(k) == (mn + (k as i16) * w..mn + (k as i16 + 1) * w)); } }
+                assert!(bins.index_of(&mx) == Some(nb - 1) && bins.index_of(&mn) == Some(0));
+                kani::cover!(nb == 4, "four bins reachable");
+            }
+        }
+    }
+
+    #[kani::proof]
+    #[kani::unwind(6)]
+    #[kani::stub(core::slice::sort::unstable::sort, model_sort)]
+    fn equispaced_build_n64_all() {
+        let w: f64 = kani::any(); let mn: f64 = kani::any(); let mx: f64 = kani::any();
+        kani::assume(w > 0.001 && w < 1000.0 && mn > -1000.0 && mn < mx && mx < 1000.0);
+        kani::assume(mn + w + w + w > mx);
+        let (bins, nb) = ndarray_stats::verif_hooks::verif_equispaced(n64(w), n64(mn), n64(mx)).unwrap();
+        assert!(bins.len() == nb && nb >= 1 && nb <= 3);
+        assert!(bins.index(0).start == n64(mn));
+        assert!(bins.index_of(&n64(mx)) == Some(nb - 1), "maximum in the last bin");
+        assert!(bins.index_of(&n64(mn)) == Some(0));
+    }
+
+    #[kani::proof]
+    fn interp_kernels_i8_region_complement() {
+        let l: i8 = kani::any(); let h: i8 = kani::any();
+        kani::assume(l <= h);
+        kani::assume((h as i16) - (l as i16) <= 127); // complement of the known-finding region
+        let qf: f64 = kani::any(); kani::assume(qf >= 0.0 && qf <= 1.0);
+        let len: usize = kani::any(); kani::assume(len >= 1 && len <= 64);
+        let q = n64(qf);
+        let m = <Midpoint as Interpolate<i8>>::interpolate(Some(l), Some(h), q, len);
+        assert!(l <= m && m <= h);
+        let twice = 2 * (m as i16); let sum = (l as i16) + (h as i16);
+        assert!(twice - sum <= 2 && sum - twice <= 2);
+        let x = <Linear as Interpolate<i8>>::interpolate(Some(l), Some(h), q, len);
+        assert!(l <= x && x <= h);
+        let n = <Nearest as Interpolate<i8>>::interpolate(Some(l), Some(h), q, len);
+        assert!(n == l || n == h);
+    }
+
+    #[kani::proof]
+    fn interp_midpoint_i8_region() {
+        let l: i8 = kani::any(); let h: i8 = kani::any();
+        kani::assume(l <= h);
+        kani::assume((h as i16) - (l as i16) > 127); // the known-finding region
+        let m = <Midpoint as Interpolate<i8>>::interpolate(Some(l), Some(h), n64(0.5), 2);
+        assert!(l <= m && m <= h);
+    }
+
     #[kani::proof]
     fn index_arith() {
         let qf: f64 = kani::any();
